@@ -27,3 +27,11 @@ package createtopics
 //@   layout v5 Name string, ErrorCode int16, ErrorMessage string?, NumPartitions int32, ReplicationFactor int16, Configs []ResponseTopicConfig
 //@ wire ResponseTopicConfig
 //@   layout v5 Name string, Value string?, ReadOnly bool, ConfigSource int8, IsSensitive bool
+
+//@ property C12
+// Routing (C12): which of the protocol message interfaces the request satisfies decides where the Transport sends it
+// (connPool.sendRequest tests BrokerMessage, then GroupMessage, then TransactionalMessage).
+//@ wire Request
+//@   implements protocol.BrokerMessage
+//@   notimplements protocol.GroupMessage
+//@   notimplements protocol.TransactionalMessage
